@@ -501,6 +501,21 @@ pub fn note(x: u64) {
     });
 }
 
+/// A scheduling point without an atomic operation (harness probes use it to let other threads run in the
+/// middle of a call of the wrapped iterator).
+pub fn yield_point() {
+    if !active() || std::thread::panicking() {
+        return;
+    }
+    point();
+    with_exec(|e| {
+        let t = e.cur;
+        e.ths[t].nops += 1;
+        e.ths[t].hist = mix(e.ths[t].hist, 0x71e1d);
+        e.ths[t].readset.clear();
+    });
+}
+
 pub fn cur_tid() -> usize {
     with_exec(|e| e.cur).unwrap_or(0)
 }
@@ -564,7 +579,19 @@ pub fn end_call() -> CallInfo {
 }
 
 thread_local! {
+    static PANIC_DEPTH: Cell<u32> = const { Cell::new(0) };
     static LAST_PANIC: RefCell<String> = const { RefCell::new(String::new()) };
+}
+
+static ABORT_CONTEXT: std::sync::Mutex<String> = std::sync::Mutex::new(String::new());
+
+/// Text printed (as `E1-ABORT-MARK <text>`) if the process is about to abort because of a panic that cannot
+/// unwind (a panic inside a destructor during unwinding, a std precondition check): lets the driver attribute
+/// the abort to the configuration being explored.
+pub fn set_abort_context(s: String) {
+    if let Ok(mut g) = ABORT_CONTEXT.lock() {
+        *g = s;
+    }
 }
 
 pub(crate) fn install_quiet_hook() {
@@ -580,6 +607,16 @@ pub(crate) fn install_quiet_hook() {
             } else {
                 "<non-string panic payload>".to_string()
             };
+            // a second panic before the first one was caught (e.g. a panic in a destructor during unwinding), or a
+            // std precondition check: the process is about to abort
+            let depth = PANIC_DEPTH.with(|d| {
+                d.set(d.get() + 1);
+                d.get()
+            });
+            if depth >= 2 || msg.contains("unsafe precondition") {
+                let ctx = ABORT_CONTEXT.lock().map(|g| g.clone()).unwrap_or_default();
+                eprintln!("\nE1-ABORT-MARK {ctx}\tpanic={msg} @ {loc}");
+            }
             LAST_PANIC.with(|p| *p.borrow_mut() = format!("{msg} @ {loc}"));
             if std::env::var_os("ORX_VERIF_SHOW_PANICS").is_some() {
                 eprintln!("[panic] {msg} @ {loc}");
@@ -596,6 +633,7 @@ pub fn guarded<R>(f: impl FnOnce() -> R) -> Result<R, String> {
             if p.is::<CancelToken>() {
                 std::panic::resume_unwind(p);
             }
+            PANIC_DEPTH.with(|d| d.set(0));
             let m = LAST_PANIC.with(|p| p.borrow().clone());
             Err(m)
         }
